@@ -251,6 +251,44 @@ def run(prog, rep, tier='quick', config='default'):
             continue
         for col, calls in str_arms(cs, g).items():
             triggers.setdefault(col, (g, calls[0], arm_fields(prog, g, calls[0])))
+    # form 3: a constant table of (COLUMN, predicate) pairs next to the writer — the table is the optional set, each predicate
+    # (a closure or a function of the module) is the trigger of its column
+    if not opt_set:
+        wmod = writer.name.rsplit('::', 1)[0]
+        for item in prog.fns.values():
+            if item.kind != 'Const' or not item.name.startswith(wmod + '::') or '::{' in item.name:
+                continue
+            pairs = []
+            for blk in item.blocks.values():
+                for st in blk['stmts']:
+                    r = st['r']
+                    if r['rv'] == 'agg' and r['kind'] == 'tuple' and len(r['ops']) == 2:
+                        col = opval(cs, item, r['ops'][0])
+                        pred = None
+                        if is_place(r['ops'][1]):
+                            po = mir.provenance(item, r['ops'][1])
+                            for kind in po.aggs:
+                                if kind.startswith('closure:'):
+                                    pred = prog.by_crate[item.crate].get(kind[len('closure:'):])
+                            for (_t, v, d) in po.consts:
+                                pred = pred or prog.resolve(d or v, item.crate)
+                        if col in expc and pred is not None and pred.ty.get(0) == 'bool':
+                            pairs.append((col, pred, st))
+            if len(pairs) >= 2 and {c for c, _, _ in pairs} < set(expc):
+                opt_set = {c for c, _, _ in pairs}
+                for col, pred, st in pairs:
+                    fs = set()
+                    for h in [pred] + prog.closures_of(pred):
+                        for blk in h.blocks.values():
+                            for s2 in blk['stmts']:
+                                for pl in h.stmt_sources(s2):
+                                    fs |= {fl for of, fl in mir.place_fields(pl) if of == CSVTX}
+                            t2 = blk['term']
+                            if t2 and t2['t'] == 'call':
+                                for a in t2['args']:
+                                    if is_place(a):
+                                        fs |= {fl for of, fl in mir.place_fields(a['pl']) if of == CSVTX}
+                    triggers.setdefault(col, (pred, type('W', (), {'where': staticmethod(lambda item=item, st=st: item.where(st))})(), fs))
     if not opt_set:
         rep.violation('R11d', 'anchor-lost:optional-headers', fn=writer.name, detail='anchor lost: optional header set in txs_to_csv_table')
     elif set(triggers) != opt_set:
